@@ -1648,43 +1648,86 @@ theorem mem_str_members' (s : List (Option Nat)) (off : Int) (holes : Nat) (v : 
   · rintro ⟨⟨i, c⟩, hp, rfl⟩; exact ⟨i, c, rfl, hp⟩
   · rintro ⟨i, c, rfl, hp⟩; exact ⟨(i, c), hp, rfl⟩
 
+theorem strTrim_spec (r : List (Option Nat) × Int × Nat) (h1 : r.2.2 = kholes r.1)
+    (h2 : ∀ c, some c ∈ r.1 → (c : Int) ≤ maxRune) :
+    (strTrim r).2.2 = kholes (strTrim r).1 ∧ (∀ c, some c ∈ (strTrim r).1 → (c : Int) ≤ maxRune) ∧
+    kden (strTrim r).1 (strTrim r).2.1 = kden r.1 r.2.1 := by
+  unfold strTrim
+  simp only
+  refine ⟨?_, ?_, ?_⟩
+  · have l1 := length_trimFront_le r.1 r.2.1
+    have l2 := length_trimBack_le (trimFront r.1 r.2.1).1
+    have c1 := kcount_trimFront r.1 r.2.1
+    have c2 := kcount_trimBack (trimFront r.1 r.2.1).1
+    have a1 := kcount_add_kholes r.1
+    have a2 := kcount_add_kholes (trimBack (trimFront r.1 r.2.1).1)
+    rw [h1]; omega
+  · intro c hc
+    exact h2 c (mem_trimFront _ _ _ (mem_trimBack _ _ hc))
+  · rw [kden_trimBack, kden_trimFront]
+
 theorem strWithout_spec (s : List (Option Nat)) (off : Int) (holes : Nat) (h : (Plain.str s off holes).WF) (v : V) :
     (strWithout s off holes v).WF ∧
     ∀ x, x ∈ (strWithout s off holes v).members ↔ x ∈ (Plain.str s off holes).members ∧ x ≠ v := by
+  -- the triple the final count test is applied to
+  have key : ∀ r : List (Option Nat) × Int × Nat, r.2.2 = kholes r.1 →
+      (∀ c, some c ∈ r.1 → (c : Int) ≤ maxRune) →
+      (∀ j y, (j, y) ∈ kden r.1 r.2.1 ↔ (j, y) ∈ kden s off ∧ charV j y ≠ v) →
+      (if strCount r.1 r.2.2 = 0 then Plain.empty else Plain.str r.1 r.2.1 r.2.2).WF ∧
+      ∀ x, x ∈ (if strCount r.1 r.2.2 = 0 then Plain.empty else Plain.str r.1 r.2.1 r.2.2).members ↔
+        x ∈ (Plain.str s off holes).members ∧ x ≠ v := by
+    intro r c1 c2 c3
+    have hmem : ∀ x, (∃ i c, x = charV i c ∧ (i, c) ∈ kden r.1 r.2.1) ↔
+        x ∈ (Plain.str s off holes).members ∧ x ≠ v := by
+      intro x
+      rw [mem_str_members']
+      constructor
+      · rintro ⟨i, c, rfl, hp⟩
+        obtain ⟨h1, h2⟩ := (c3 i c).1 hp
+        exact ⟨⟨i, c, rfl, h1⟩, h2⟩
+      · rintro ⟨⟨i, c, rfl, hp⟩, hne⟩
+        exact ⟨i, c, rfl, (c3 i c).2 ⟨hp, hne⟩⟩
+    have hcnt : strCount r.1 r.2.2 = kcount r.1 := by
+      have := kcount_add_kholes r.1
+      unfold strCount
+      rw [c1]; omega
+    split
+    · rename_i h0
+      rw [hcnt] at h0
+      refine ⟨trivial, ?_⟩
+      intro x
+      rw [← hmem]
+      simp only [Plain.members, List.not_mem_nil, false_iff]
+      rintro ⟨i, c, _, hp⟩
+      rw [kden_nil_of_kcount_zero _ _ h0] at hp
+      cases hp
+    · rename_i h0
+      rw [hcnt] at h0
+      refine ⟨⟨c1, by omega, c2⟩, ?_⟩
+      intro x
+      rw [← hmem, mem_str_members']
   obtain ⟨c1, c2, c3⟩ := strWithoutCore_spec s off holes h v
-  have hmem : ∀ x, (∃ i c, x = charV i c ∧
-      (i, c) ∈ kden (strWithoutCore s off holes v).1 (strWithoutCore s off holes v).2.1) ↔
-      x ∈ (Plain.str s off holes).members ∧ x ≠ v := by
-    intro x
-    rw [mem_str_members']
-    constructor
-    · rintro ⟨i, c, rfl, hp⟩
-      obtain ⟨h1, h2⟩ := (c3 i c).1 hp
-      exact ⟨⟨i, c, rfl, h1⟩, h2⟩
-    · rintro ⟨⟨i, c, rfl, hp⟩, hne⟩
-      exact ⟨i, c, rfl, (c3 i c).2 ⟨hp, hne⟩⟩
-  have hcnt : strCount (strWithoutCore s off holes v).1 (strWithoutCore s off holes v).2.2 =
-      kcount (strWithoutCore s off holes v).1 := by
-    have := kcount_add_kholes (strWithoutCore s off holes v).1
-    unfold strCount
-    rw [c1]; omega
   unfold strWithout
-  simp only
-  split
-  · rename_i h0
-    rw [hcnt] at h0
-    refine ⟨trivial, ?_⟩
-    intro x
-    rw [← hmem]
-    simp only [Plain.members, List.not_mem_nil, false_iff]
-    rintro ⟨i, c, _, hp⟩
-    rw [kden_nil_of_kcount_zero _ _ h0] at hp
-    cases hp
-  · rename_i h0
-    rw [hcnt] at h0
-    refine ⟨⟨c1, by omega, c2⟩, ?_⟩
-    intro x
-    rw [← hmem, mem_str_members']
+  cases hc : asChar v with
+  | none =>
+    simp only
+    apply key (s, off, holes) h.1 h.2.2
+    intro j y
+    constructor
+    · intro hm
+      refine ⟨hm, ?_⟩
+      intro he
+      apply asChar_none_not_mem_str h hc
+      rw [← he]
+      exact List.mem_map.2 ⟨(j, y), hm, rfl⟩
+    · exact fun hh => hh.1
+  | some p =>
+    simp only
+    obtain ⟨t1, t2, t3⟩ := strTrim_spec (strWithoutCore s off holes v) c1 c2
+    apply key _ t1 t2
+    intro j y
+    rw [t3]
+    exact c3 j y
 
 theorem mem_arr_members' (vs : List (Option V)) (off : Int) (count : Nat) (v : V) :
     v ∈ (Plain.arr vs off count).members ↔ ∃ i x, v = itemV i x ∧ (i, x) ∈ kden vs off := by
@@ -1692,6 +1735,27 @@ theorem mem_arr_members' (vs : List (Option V)) (off : Int) (count : Nat) (v : V
   constructor
   · rintro ⟨⟨i, c⟩, hp, rfl⟩; exact ⟨i, c, rfl, hp⟩
   · rintro ⟨i, c, rfl, hp⟩; exact ⟨(i, c), hp, rfl⟩
+
+theorem newOffsetArray_spec (off : Int) (vs : List (Option V)) :
+    (newOffsetArray off vs).WF ∧
+    ∀ x, x ∈ (newOffsetArray off vs).members ↔ ∃ i y, x = itemV i y ∧ (i, y) ∈ kden vs off := by
+  have hk : kden (trimBack (trimFront vs off).1) (trimFront vs off).2 = kden vs off := by
+    rw [kden_trimBack, kden_trimFront]
+  unfold newOffsetArray
+  simp only
+  split
+  · rename_i he
+    refine ⟨trivial, ?_⟩
+    intro x
+    have : trimBack (trimFront vs off).1 = [] := by simpa using he
+    rw [this] at hk
+    simp only [Plain.members, List.not_mem_nil, false_iff]
+    rintro ⟨i, y, _, hp⟩
+    rw [← hk] at hp
+    simp [kden] at hp
+  · refine ⟨rfl, ?_⟩
+    intro x
+    rw [mem_arr_members', hk]
 
 theorem arrWithout_spec (vs : List (Option V)) (off : Int) (count : Nat) (h : (Plain.arr vs off count).WF) (v : V) :
     (arrWithout vs off count v).WF ∧
@@ -1741,8 +1805,11 @@ theorem arrWithout_spec (vs : List (Option V)) (off : Int) (count : Nat) (h : (P
         have hg0 : kget vs 0 = some y := by
           have : (ix - off).toNat = 0 := by omega
           rw [this] at hg; exact hg
-        obtain ⟨_, c2⟩ := counts_drop_one vs y hg0
-        refine ⟨by show count - 1 = kcount (vs.drop 1); omega, ?_⟩
+        obtain ⟨n1, n2⟩ := newOffsetArray_spec (off + 1) (vs.drop 1)
+        refine ⟨n1, ?_⟩
+        intro x
+        rw [n2, ← mem_arr_members' (vs.drop 1) (off + 1) 0]
+        revert x
         apply lift _ _ _ y 0 (by omega) rfl
         intro j z
         have := mem_kden_drop_one vs off y hg0 j z
@@ -1752,8 +1819,11 @@ theorem arrWithout_spec (vs : List (Option V)) (off : Int) (count : Nat) (h : (P
           have hgl : kget vs (vs.length - 1) = some y := by
             have : (ix - off).toNat = vs.length - 1 := by omega
             rw [this] at hg; exact hg
-          obtain ⟨_, c2⟩ := counts_drop_last vs y hgl
-          refine ⟨by show count - 1 = kcount (vs.take (vs.length - 1)); omega, ?_⟩
+          obtain ⟨n1, n2⟩ := newOffsetArray_spec off (vs.take (vs.length - 1))
+          refine ⟨n1, ?_⟩
+          intro x
+          rw [n2, ← mem_arr_members' (vs.take (vs.length - 1)) off 0]
+          revert x
           apply lift _ _ _ y (vs.length - 1) (by omega) rfl
           exact mem_kden_drop_last vs off y hgl
         · obtain ⟨_, c2⟩ := counts_eraseAt vs _ y hg
